@@ -5,7 +5,7 @@ from regcommon import *
 
 META = dict(
     engine='RegTable.tla',
-    technique='TLA+ spec RegTable.tla (flat word address space, overlay validation, allowed failure set per block write); the real register_block_write is driven over a seeded small-scope family of tables x every (address, length) window position x adversarial word patterns on evolving contents, and TLC validates every recorded call (result class and address in the allowed set, whole memory image, touched marks) with RegTableTrace.tla',
+    technique='TLA+ spec RegTable.tla (flat word address space, overlay validation, allowed failure set per block write); the real register_block_write is driven over a seeded small-scope family of tables x every (address, length) window position x adversarial word patterns on contents that evolve through block writes, typed sets and sanitise, and TLC validates every recorded call (result class and address in the allowed set, whole memory image, touched marks) with RegTableTrace.tla',
     level='For each table of a generated small-scope family (1-3 areas with and without gaps, RW/RO/WO/no-write-callback, memory- and callback-backed, u16/u32/u64/s16/s32/f32/f64 registers with every constraint kind at every alignment incl. registers ending at an area edge) every block write (address in the window +-1, length 1..9) is executed with word patterns chosen per overlapped register (valid, out of range, undecodable, all-ones, all-zero, random) on exact-size caller buffers under ASan; TLC validates each recorded call against the specification: success iff mapped, writable and every overlapped register still decodes and satisfies its constraint after the overlay; on success exactly the n words change and the overlapped registers are marked; on failure nothing changes and (class, address) is one of the applicable (class, first address in the request) pairs.',
     note='Trusted: TLC, harness/regtab.c (projection of atoms in table byte order, whole-image comparison), ASan for accesses outside the caller buffer / area storage. When several failure classes apply any of them is accepted (R4). Custom area callbacks never fail.',
 )
@@ -28,11 +28,76 @@ def scripts(rnd, ntables, types, nmax):
                 for mode in ('in', 'out', 'und', 'mixed', rnd.choice(['ones', 'zero', 'rand'])):
                     ops.append(bwrite(addr, block_for(t, rnd, addr, n, mode)))
         rnd.shuffle(ops)
+        can_sanitise = all(a[5] == 1 for a in t['areas']) and all(i['ck'] != 1 for i in t['info'])
         for i, o in enumerate(ops):
             sc.append(o)
             if i % 97 == 96:
                 sc.append('bwrite %d 0' % rnd.randint(lo, hi))
+            # contents also change through the typed API (no touched mark) and sanitise clears the marks: block writes that
+            # overlap a register only partly are judged against what the table holds then, whoever put it there
+            if i % 7 == 3:
+                h = rnd.randrange(len(t['info']))
+                inf = t['info'][h]
+                pool = inf['ins'] or [0]
+                sc.append(set_(h, inf['ty'], rnd.choice(pool), rnd.choice([0, 0, 1])))
+            if can_sanitise and i % 61 == 60:
+                sc.append('sanitise')
         yield rebased(sc, rnd)
+
+
+def _accepts(inf, reg_, bits):
+    """integer registers with min / max / range constraint: does the value satisfy it (python side, only to pick discriminating cases)"""
+    ty, ck, lo, hi = inf['ty'], inf['ck'], reg_[3], reg_[4]
+    if ty in (S16, S32, S64):
+        sg = lambda x: x - (1 << BITS[ty]) if x >> (BITS[ty] - 1) else x
+        bits, lo, hi = sg(bits), sg(lo), sg(hi)
+    return (ck not in (2, 4) or lo <= bits) and (ck not in (3, 4) or bits <= hi)
+
+
+def _mix(t, ty, base, w, k, n):
+    """the register value when words k..k+n-1 (ascending addresses) of base are replaced by those of w"""
+    bw, ww = words_of(t, ty, base), words_of(t, ty, w)
+    ws = bw[:k] + ww[k:k + n] + bw[k + n:]
+    if not t['be']:
+        ws = ws[::-1]
+    v = 0
+    for x in ws:
+        v = (v << 16) | x
+    return v
+
+
+def partial_after_set(rnd, ntables, types):
+    """a register whose content came through the typed API (no touched mark), then a block write that covers only part of it: the
+    verdict is about the words the table holds now plus the words of the block - not about the default, not about an older content.
+    For integer registers with a min / max / range constraint half of the cases are picked so that exactly that makes the difference."""
+    for ti in range(ntables):
+        t = make_table(rnd, types)
+        multi = [h for h, inf in enumerate(t['info']) if SIZE[inf['ty']] >= 2 and inf['ck'] != 1 and len(inf['ins']) >= 1]
+        if not multi:
+            continue
+        sc = []
+        for h in multi:
+            inf = t['info'][h]
+            ty = inf['ty']
+            sz = SIZE[ty]
+            df = t['regs'][h][5]
+            for k in range(sz):
+                for n in range(1, sz - k + (0 if k == 0 else 1)):
+                    for trial in range(6):
+                        vin = rnd.choice(inf['ins'])
+                        w = rnd.choice(inf['ins'] + inf['outs'] + [rnd.getrandbits(BITS[ty])])
+                        if trial % 2 == 0 and ty not in (F32, F64) and inf['ck'] in (2, 3, 4):
+                            for _ in range(200):
+                                vin = rnd.choice(inf['ins'] + [rnd.getrandbits(BITS[ty])])
+                                w = rnd.choice(inf['ins'] + inf['outs'] + [rnd.getrandbits(BITS[ty])] * 4)
+                                if _accepts(inf, t['regs'][h], vin) and _accepts(inf, t['regs'][h], _mix(t, ty, vin, w, k, n)) != _accepts(inf, t['regs'][h], _mix(t, ty, df, w, k, n)):
+                                    break
+                            else:
+                                vin = rnd.choice(inf['ins'])
+                        ws = words_of(t, ty, w)[k:k + n]
+                        sc += [table_line(t), set_(h, ty, vin, rnd.choice([0, 1])), bwrite(inf['addr'] + k, ws), 'get %d' % h]
+        for i in range(0, len(sc), 400):
+            yield rebased(sc[i:i + 400], rnd)
 
 
 def run(tier):
@@ -42,6 +107,7 @@ def run(tier):
     ss = []
     for rnd in vf.rounds(tier, 5):
         ss += list(scripts(rnd, 40 if quick else 200, TYPES_Q if quick else TYPES_T, 6 if quick else 9))
+        ss += list(partial_after_set(rnd, 12 if quick else 60, TYPES_Q if quick else TYPES_T))
     vf.trace_flow(v, 'RegTableTrace.tla', 'RegTableTrace.cfg', 'regtab', ss, 'bw')
     nb = sum(len(s) - 1 for s in ss)
     v.cov['distinct_nontrivial'] += len(set(l for s in ss for l in s if l.startswith('bwrite')))
